@@ -624,6 +624,53 @@ def check_predicates(case, ctx):
                     ctx.violation("pred|is_compatible_with_bipartition|%s" % ("rooted" if rooted else "unrooted"),
                                   "tree %s vs side %s: got %r want %r" % (ref.to_newick(sn, False), sorted(A), got, want),
                                   dict(case, only=[m1], tree=shape))
+    # whole-tree compatibility with default arguments after the tree was encoded / queried and then
+    # edited: the answer must be for the structure as it is now, not for the encoding left behind
+    for shape, sn in trees:
+        for edit in ("swap-two-leaf-taxa", "regraft-first-leaf"):
+            for prime in ("encode", "query"):
+                t = build.build_tree((rooted, sn), ns)
+                if prime == "encode":
+                    t.encode_bipartitions()
+                else:
+                    t.is_compatible_with_bipartition(items[0][1])
+                leaves = [nd for nd in t.leaf_node_iter()]
+                if edit == "swap-two-leaf-taxa":
+                    if len(leaves) < 2:
+                        continue
+                    leaves[0].taxon, leaves[-1].taxon = leaves[-1].taxon, leaves[0].taxon
+                else:
+                    if len(leaves) < 3:
+                        continue
+                    lf = leaves[0]
+                    target = [nd for nd in t.preorder_node_iter() if nd._child_nodes and nd is not lf._parent_node]
+                    if not target:
+                        continue
+                    lf._parent_node.remove_child(lf)
+                    target[-1].add_child(lf)
+                cur = ref.snapshot(t)[1]
+                if rooted:
+                    tsplits = ref.rooted_clades(cur)
+                else:
+                    tsplits = set(min(x, key=sorted) for x in ref.unrooted_splits(cur))
+                for m1, b1 in items:
+                    A = _labelset(m1, bit)
+                    if rooted:
+                        want = all(ref.compatible_rooted(A, c) for c in tsplits)
+                    else:
+                        want = all(ref.compatible_unrooted(A, c, allc) for c in tsplits)
+                    ctx.case(("treecompat-after-edit", n, rooted, cfg, shape, edit, prime, m1), nontrivial=n >= 4)
+                    ctx.count("tree_compatibility_queries_after_an_edit")
+                    try:
+                        got = t.is_compatible_with_bipartition(b1)
+                    except Exception as e:
+                        ctx.violation("pred|tree-compatible|after-edit|exception", repr(e), dict(case, only=[m1]))
+                        continue
+                    if bool(got) != want:
+                        ctx.violation("pred|is_compatible_with_bipartition|after:%s+%s|%s" % (prime, edit, "rooted" if rooted else "unrooted"),
+                                      "tree now %s (was %s) vs side %s with default arguments: got %r want %r" % (
+                                          ref.to_newick(cur, False), ref.to_newick(sn, False), sorted(A), got, want),
+                                      dict(case, only=[m1], tree=shape))
     ctx.sample({"predicate_class": [n, rooted, cfg], "distinct_bipartitions": len(items)}, 1)
 
 
